@@ -1,5 +1,5 @@
 """C14 — DynamicRootSet (DESIGN.md §4 C14)."""
-from gcv import typestate, slots, interp, cfg
+from gcv import typestate, slots, interp, cfg, rules_roots
 from gcv.interp import Interp, State, TOP, UNIT, adt, ref, I
 from gcv.props import C16 as c16, C12 as c12
 from gcv.model import norm
@@ -49,8 +49,8 @@ def slot_strong(chk, prog):
              detail="Slot::trace must report the stashed pointer with trace_gc (strong); found %s" % [s.kind for s in sites])
 
 
-def _handle(ptr=("obj", 7), idx=3):
-    return adt(DR, 0, (adt("gc::Gc", 0, (ptr, UNIT)), ("sym", "weak_slots"), I(idx)))
+def _handle(prog):
+    return rules_roots.handle_value(prog)
 
 
 def pairing(chk, prog):
@@ -103,7 +103,8 @@ def pairing(chk, prog):
             if not chk.anchor(fn, fn in prog.seed_n):
                 continue
             st = State()
-            st.mem[("h",)] = _handle()
+            hv, pos = _handle(prog)
+            st.mem[("h",)] = hv
             try:
                 outs = [o for o in mk_ip(alive).run(prog.seed_n[fn][0], [ref(("h",), ())], st) if o.kind == "return"]
             except (interp.Unmodelled, interp.InterpError) as e:
@@ -119,7 +120,7 @@ def pairing(chk, prog):
                     probs.append("slot-count events %s, specification says %s" % (evs, want))
                 if evn == "inc":
                     v = o.value
-                    if v[0] != "adt" or v[3][0] != _handle()[3][0] or v[3][2] != I(3):
+                    if v[0] != "adt" or v[3][pos["ptr"]] != hv[3][pos["ptr"]] or v[3][pos["index"]] != I(3):
                         probs.append("the clone does not carry the same pointer and slot index")
             chk.inst("handle-pairing", "%s(set alive=%s)" % (fn.split(" as ")[1], alive), not probs,
                      detail="; ".join(probs[:2]), sample={"fn": fn, "set_alive": alive, "events": [str(e) for o in outs for e in o.ev if e[0] in ("inc", "dec")]})
@@ -127,6 +128,7 @@ def pairing(chk, prog):
     fn = "dynamic_roots::DynamicRootSet::stash"
     if chk.anchor(fn, fn in prog.seed_n):
         m = typestate.engine(chk.cfg or "default")[1].m
+        hpos = _handle(prog)[1]
 
         def add(ip, st, args, info):
             st.event("add", args[1])
@@ -149,12 +151,12 @@ def pairing(chk, prog):
                     continue
                 from gcv.gcmodel import _obj_of
                 try:
-                    pid = _obj_of(m.ip, o.st, v[3][0])
+                    pid = _obj_of(m.ip, o.st, v[3][hpos["ptr"]])
                 except interp.InterpError:
                     pid = None
                 if pid != 2:
                     probs.append("the handle's pointer is not the stashed pointer")
-                if v[3][2] != ("sym", "new_index"):
+                if v[3][hpos["index"]] != ("sym", "new_index"):
                     probs.append("the handle's index is not the index returned by Slots::add")
                 if adds:
                     try:
@@ -177,39 +179,8 @@ def pairing(chk, prog):
 
 
 def fetch_rules(chk, prog):
-    for fn in ("dynamic_roots::DynamicRootSet::fetch", "dynamic_roots::DynamicRootSet::try_fetch"):
-        if not chk.anchor(fn, fn in prog.seed_n):
-            continue
-        for ans in (1, 0):
-            def contains(ip, st, args, info, ans=ans):
-                return [(st, "ret", I(ans))]
-            ip = Interp(prog, prims={"dynamic_roots::DynamicRootSet::contains": contains}, strict=True)
-            ip.lenient_std = True
-            st = State()
-            st.mem[("h",)] = _handle()
-            st.mem[("set",)] = ("sym", "set")
-            try:
-                outs = ip.run(prog.seed_n[fn][0], [ref(("set",), ()), ref(("h",), ())], st)
-            except (interp.Unmodelled, interp.InterpError) as e:
-                chk.inst("fetch-contract", "%s(contains=%s)" % (fn, bool(ans)), False, detail="could not be analysed: %s" % e)
-                continue
-            probs = []
-            gcv = _handle()[3][0]
-            for o in outs:
-                if ans:
-                    if o.kind != "return":
-                        probs.append("%s fails for a handle of this set" % fn)
-                    else:
-                        v = o.value
-                        got = v if fn.endswith("::fetch") else (v[3][0] if v[0] == "adt" and v[2] == 0 and v[3] else None)
-                        if got != gcv:
-                            probs.append("the returned pointer is not the handle's pointer")
-                else:
-                    if fn.endswith("::fetch") and o.kind == "return":
-                        probs.append("fetch returns a pointer for a foreign handle")
-                    if fn.endswith("try_fetch") and not (o.kind == "return" and o.value[0] == "adt" and o.value[2] == 1):
-                        probs.append("try_fetch does not return Err for a foreign handle")
-            chk.inst("fetch-contract", "%s(contains=%s)" % (fn.split("::")[-1], bool(ans)), not probs, detail="; ".join(sorted(set(probs))[:2]))
+    # fetch-contract and the identity rule of contains() run inside c12.rebrand (shared rules_roots engine)
+    pass
 
 
 def run(chk, tier):
